@@ -1033,6 +1033,7 @@ func RunKernAbsent(w *World, r *Report) {
 		return
 	}
 	n := 0
+	kaCC := controlConds(fn)
 	for _, b := range fn.Blocks {
 		for _, in := range b.Instrs {
 			mu, ok := in.(*ssa.MapUpdate)
@@ -1042,8 +1043,13 @@ func RunKernAbsent(w *World, r *Report) {
 			n++
 			key := r.MkKey("kernabsent", "kern.Read", "update of the result map")
 			bad := ""
+			var conds []ssa.Value
 			for _, g := range guardsOf(b) {
-				for v := range backSlice(g.cond) {
+				conds = append(conds, g.cond)
+			}
+			conds = append(conds, kaCC[b]...) // also conditions joined by || (the block has several predecessors)
+			for _, cond := range conds {
+				for v := range backSlice(cond) {
 					ex, ok := v.(*ssa.Extract)
 					if !ok || ex.Index != 1 {
 						continue
@@ -1056,7 +1062,7 @@ func RunKernAbsent(w *World, r *Report) {
 			if bad == "" {
 				r.OK("kernabsent", key, w.Pos(mu.Pos()), "the update does not depend on the pair being present already")
 			} else {
-				r.Fail("kernabsent", key, w.Pos(mu.Pos()), "this update of the kerning map happens only when the pair is already present (presence flag of the lookup at "+bad+"): a pair listed only in this subtable keeps kerning 0 although the record says otherwise (a minimum value above 0 is not applied)", nil)
+				r.Fail("kernabsent", key, w.Pos(mu.Pos()), "whether this update of the kerning map happens depends on the pair being present already (presence flag of the lookup at "+bad+"): a pair no earlier subtable listed counts as kerning 0, so a minimum record must neither be skipped for it (a minimum above 0) nor applied unconditionally (a minimum below 0)", nil)
 			}
 		}
 	}
